@@ -451,6 +451,7 @@ func gen(t *rapid.T) Case {
 		}
 		dropInclude := withSub && rapid.Bool().Draw(t, "latest-drops-include")
 		datedInclude := withSub && rapid.Bool().Draw(t, "older-revisions-include-with-date")
+		sub2 := withSub && undated && rapid.Bool().Draw(t, "second-submodule-of-the-undated-text")
 		famFrom = len(c.Good)
 		for i := 0; i < n; i++ {
 			name, rev, inc, viaSub := "fam@"+dates[i]+".yang", " revision "+dates[i]+";\n", "", ""
@@ -462,6 +463,10 @@ func gen(t *rapid.T) Case {
 				if i < n-1 && datedInclude {
 					// the older revisions stay with the first revision of the submodule
 					inc = " include famsub { revision-date 2019-05-05; }\n"
+				}
+				if i == 0 && undated && sub2 {
+					// only the text without revision includes a second submodule
+					inc += " include famsub2;\n"
 				}
 				viaSub = fmt.Sprintf(" identity viasub%d { base sid; }\n leaf vs { type st; }\n typedef stu { type union { type st; type int8; } }\n leaf vsu { type stu; }\n", i)
 				if dropInclude && i == n-1 {
@@ -476,6 +481,11 @@ func gen(t *rapid.T) Case {
 			c.Good = append(c.Good, ymodel.Source{Name: name, Text: fmt.Sprintf("module fam {\n namespace \"urn:fam\";\n prefix f;\n import fambase { prefix fb; }\n%s%s typedef t { type %s; units \"r%d\"; }\n typedef n { type int32 { range \"%d..%d\"; } }\n typedef s { type string { length \"%d..%d\"; } }\n grouping g { leaf from-r%d { type t; } }\n identity id;\n identity sub%d { base id; }\n typedef lt { type identityref { base id; } }\n leaf ll { type lt; }\n%s container c%d { leaf own { type t; } }\n container c { }\n}\n", inc, rev, kinds[i], i, 10*i, 100-10*i, i, 20-i, i, i, viaSub, i)})
 		}
 		c.Good = append(c.Good, ymodel.Source{Name: "fambase.yang", Text: "module fambase {\n namespace \"urn:fambase\";\n prefix fb;\n identity root;\n leaf rr { type identityref { base root; } }\n}\n"})
+		if sub2 {
+			// a submodule that only the family member without revision includes: an identity with a local base and
+			// an augment of the module's container (both ask which revision of fam the submodule's text belongs to)
+			c.Good = append(c.Good, ymodel.Source{Name: "famsub2.yang", Text: "submodule famsub2 {\n belongs-to fam { prefix f; }\n identity s2base;\n identity s2d { base s2base; }\n leaf s2ref { type identityref { base s2base; } }\n augment \"/f:c\" { leaf from-sub2 { type string; } }\n}\n"})
+		}
 		if withSub {
 			c.Good = append(c.Good, ymodel.Source{Name: "famsub@2019-05-05.yang", Text: "submodule famsub {\n belongs-to fam { prefix f; }\n import fambase { prefix fb; }\n revision 2019-05-05;\n identity subsame { base fb:root; }\n identity subother { base fb:root; }\n identity sid;\n identity sd19 { base sid; }\n typedef st { type identityref { base sid; } }\n typedef sonly19 { type string; units \"only-2019\"; }\n leaf insub { type st; }\n}\n"})
 			if rapid.Bool().Draw(t, "later-submodule-revision") {
